@@ -638,7 +638,8 @@ package template
 //@   serves C01 C08
 //@   option nopanic
 //@   option termination unchecked
-//@   requires !isnil(e) && !isnil(e.ns) && !isnil(n)
+//@   requires !isnil(e) && !isnil(e.ns) && !isnil(n) && !isnil(e.textNodeEdits)
+//@   option modifies map[int]opaque#dom map[int]opaque#val
 //@   requires wf: c.state <= stateError && c.delim <= delimSpaceOrTagEnd && (c.delim != delimNone ==> c.state == stateAttr) && (c.state == stateText ==> !isspecial(c.element.name))
 //@   ensures wfout: r.state <= stateError && r.delim <= delimSpaceOrTagEnd && (r.delim != delimNone ==> r.state == stateAttr) && (r.state == stateText ==> !isspecial(r.element.name))
 //@   loop 1
@@ -790,6 +791,7 @@ package template
 //@   option allocates
 //@   option modifies @ANALYSISMAPS @DERIVEDTREES
 //@   requires !isnil(n)
+//@   requires escmaps: !isnil(e.output) && !isnil(e.derived) && !isnil(e.called) && !isnil(e.actionNodeEdits) && !isnil(e.templateNodeEdits) && !isnil(e.textNodeEdits)
 //@   ensures reentry: nodeName == "range" && r.state != stateError ==> nudgest(namedlike(c, "esclist", c, n.List).state) == nudgest(namedlike(c, "esclist", namedlike(c, "esclist", c, n.List), n.List).state) && nudgedl(namedlike(c, "esclist", c, n.List).state, namedlike(c, "esclist", c, n.List).delim) == nudgedl(namedlike(c, "esclist", namedlike(c, "esclist", c, n.List), n.List).state, namedlike(c, "esclist", namedlike(c, "esclist", c, n.List), n.List).delim)
 //@   ensures branches: r.state != stateError ==> nudgest(namedlike(c, "esclist", c, n.List).state) == nudgest(namedlike(c, "esclist", c, n.ElseList).state) && nudgedl(namedlike(c, "esclist", c, n.List).state, namedlike(c, "esclist", c, n.List).delim) == nudgedl(namedlike(c, "esclist", c, n.ElseList).state, namedlike(c, "esclist", c, n.ElseList).delim)
 
